@@ -332,7 +332,7 @@ def gen_zpair(r, kind):
 CTOR_ORDER = ["H0", "h", "flat", "omega_m", "omega_l", "omega_k"]
 # numpy float32 scalars as constructor arguments make the unrepaired constructor compute DH / H0 / omega_l in float32
 # (fixes/C11/0001-*.patch); generated and replayed from the corpus only once that repair is in /repo HEAD
-CTOR_F4 = False
+CTOR_F4 = True
 
 
 def build(kw, form=None):
@@ -578,6 +578,8 @@ class Chain(Entry):
 # ----------------------------------------------------------------------------------------------
 TWO = ["Dc", "Dm", "Da", "Dl", "sigmacritinv"]
 ONE = ["Ez_inverse", "dV", "distmod"]
+SS_ONLY = ["V", "Ezinv_integral"]          # documented for scalars only: exercised with every scalar form
+TWO_ALL = TWO + SS_ONLY
 # array forms handed to esutil (input-form audit, docs/reports/C11.md section 10).  Every form denotes the exact reals
 # in c["a"] / c["b"]: integer forms carry integers, float32 forms float32-representable values.
 DTYPES = ["f8", "f4", "i8", "i4", "u8", "u1", "f8-be", "f4-be", "i4-be", "list", "list-int", "tuple", "strided",
@@ -638,6 +640,8 @@ def mk_scalar(v, dt):
         return np.int64(int(v))
     if dt == "np.i4":
         return np.int32(int(v))
+    if dt == "np.0d":                          # 0-d array where only scalars are documented (V, Ezinv_integral)
+        return np.array(float(v))
     return float(v)
 
 
@@ -689,10 +693,6 @@ def canon_out(res):
     return ["sc", bits(res)]
 
 
-LONG_QUICK = [1023, 1025, 4096, 8193]
-LONG_THOROUGH = [1023, 1024, 1025, 4095, 4097, 8191, 8192, 8193, 16385, 65537, 100000]
-
-
 class Dispatch(Entry):
     name = "dispatch"
 
@@ -732,24 +732,36 @@ class Dispatch(Entry):
                     lo = 1.0
                 a = gen_vals(r, n if shape == "a" else 1, da, lo=lo)
                 cs.append({"kw": kw, "meth": meth, "shape": shape, "da": da, "a": a, "family": "%s/%s" % (meth, shape)})
+        for _ in range(ctx.n(14, 80)):
+            kw = gen_cosmo(ctx, r.choice(["flat", "open", "closed", "concordance"]), K)
+            da, db = r.choice(SCALARS + ["np.0d"]), r.choice(SCALARS + ["np.0d"])
+            x, y = gen_vals(r, 1, da)[0], gen_vals(r, 1, db)[0]
+            if x > y:
+                x, y, da, db = y, x, db, da
+            meth = r.choice(SS_ONLY)
+            cs.append({"kw": kw, "meth": meth, "shape": "ss", "da": da, "db": db, "a": [x], "b": [y],
+                       "family": "%s/ss" % meth})
         if round == 0:
             # long arrays (beyond numpy's 8192-element cast buffer and any plausible block size): few distinct values
-            # (palette), so that the measured scalar table stays small
-            lens = LONG_QUICK if ctx.quick() else LONG_THOROUGH
-            for j, n in enumerate(lens):
+            # (palette), so that the measured scalar table stays small.  EVERY C loop (5 methods x vec1/vec2/2vec, the
+            # three one-argument loops) gets a length just beyond a power of two; thorough adds more and longer ones.
+            loops = [(m, sh) for m in TWO for sh in ("as", "sa", "aa")] + [(m, "a") for m in ONE]
+            plan = [(m, sh, [4097, 8193, 1025][j % 3]) for j, (m, sh) in enumerate(loops)]
+            if not ctx.quick():
+                plan += [(m, sh, [8191, 4095, 16385][j % 3]) for j, (m, sh) in enumerate(loops)]
+                plan += [("Dc", "aa", 65537), ("sigmacritinv", "sa", 100000), ("Da", "as", 65536), ("dV", "a", 100000),
+                         ("Dm", "sa", 8192), ("Dl", "aa", 4096)]
+            fa = ["f8", "f4", "i8", "strided", "list", "f8-be", "reversed", "i4", "readonly", "u1", "col2d", "tuple"]
+            for j, (meth, shape, n) in enumerate(plan):
                 kw = gen_cosmo(ctx, r.choice(["flat", "open", "closed"]), K)
-                da = ["f8", "f4", "i8", "strided", "list", "f8-be", "reversed", "i4"][j % 8]
-                db = ["f4", "f8", "readonly", "f8", "u1", "col2d", "list", "f8"][j % 8]
+                da, db = fa[j % len(fa)], fa[(5 * j + 3) % len(fa)]
                 long = {}
-                if j % 4 == 3:
-                    meth, shape = r.choice(["Ez_inverse", "dV", "distmod"]), "a"
+                if meth in ONE:
                     lo = 1.0 if (meth == "distmod" and da in INT_FORMS) else (0.01 if meth == "distmod" else 0.0)
                     long["a"] = {"pal": gen_vals(r, 6, da, lo=lo), "n": n, "seed": r.randrange(10 ** 9)}
                     cs.append({"kw": kw, "meth": meth, "shape": shape, "da": da, "a": None, "long": long,
                                "family": "%s/long" % meth})
                     continue
-                meth = r.choice(TWO)
-                shape = ["aa", "as", "sa"][j % 4]
                 if shape[0] == "a":
                     long["a"] = {"pal": gen_vals(r, 6, da), "n": n, "seed": r.randrange(10 ** 9)}
                 if shape[1] == "a":
@@ -775,7 +787,7 @@ class Dispatch(Entry):
     @staticmethod
     def _is_arr(c, pos):
         sh = c["shape"]
-        return sh[pos] == "a" if c["meth"] in TWO else sh == "a"
+        return sh[pos] == "a" if c["meth"] in TWO_ALL else sh == "a"
 
     def _impl(self, c):
         import numpy as np
@@ -784,7 +796,7 @@ class Dispatch(Entry):
         res = {}
         av = expand(c, "a")
         A = mk_array(av, c["da"]) if self._is_arr(c, 0) else mk_scalar(av[0], c["da"])
-        if c["meth"] in TWO:
+        if c["meth"] in TWO_ALL:
             bv = expand(c, "b")
             B = mk_array(bv, c["db"]) if self._is_arr(c, 1) else mk_scalar(bv[0], c["db"])
             r = core.guarded(lambda: canon_out(f(A, B)))
@@ -849,7 +861,7 @@ class Dispatch(Entry):
 
     def _term(self, c, out):
         av = expand(c, "a")
-        if c["meth"] in TWO:
+        if c["meth"] in TWO_ALL:
             bv = expand(c, "b")
             tab = "[" + "; ".join("(%s, %s, %s)" % (cz(a), cz(b), cz(v)) for a, b, v in out["tab"]) + "]"
             return "v_dispatch2 %s %s %s %s" % (tab, self._arg(av, self._is_arr(c, 0)), self._arg(bv, self._is_arr(c, 1)),
@@ -1121,11 +1133,20 @@ def run_constants(ctx):
         ("Cosmo.copy/__copy__/__deepcopy__ as translated from cosmology.py = Model.stored_args",
          "forall (num : Type) (o : @cosmo_obj num), (let a := stored_args o in (a_H0 a, a_h a, a_flat a, a_om a, a_ol a, a_ok a)) "
          "= copy_args_src (s_H0 o) (s_flat o) (s_om o) (s_ol o) (s_ok o)", "intros; reflexivity."),
+        ("dispatch of Dc/Dm/Da/Dl/sigmacritinv as translated from cosmology.py = the entry point Model.dispatch2 takes "
+         "(scalar, _vec1, _vec2, _2vec, ValueError), for every argument shape",
+         "forall (A B : Type) (f : A -> A -> B) (a b : zarg A), "
+         + " /\\ ".join("dispatch_src_%s (is_sc a) (is_sc b) (negb (Nat.eqb (arg_len a) (arg_len b))) = code_of f a b" % m
+                         for m in ("Dc", "Dm", "Da", "Dl", "sigmacritinv")),
+         "intros A B f [x|xs] [y|ys]; unfold code_of, dispatch2, dispatch_src_Dc, dispatch_src_Dm, dispatch_src_Da, "
+         "dispatch_src_Dl, dispatch_src_sigmacritinv; cbn [is_sc arg_len andb negb]; "
+         "try destruct (Nat.eqb (length xs) (length ys)); repeat split; reflexivity."),
         ("Cosmo._pars/__reduce__ as translated from cosmology.py = Model.reduce_args",
          "forall (num : Type) (o : @cosmo_obj num), (let a := reduce_args o in (a_H0 a, a_h a, a_flat a, a_om a, a_ol a, a_ok a)) "
          "= reduce_args_src (s_H0 o) (c_flat o) (c_om o) (c_ol o) (c_ok o)", "intros; reflexivity."),
     ]
-    out = core.coq_lemmas(os.path.join(ctx.work, "const"), PRE_ACC, [(s, p) for _, s, p in lem], shard=8, tag="const")
+    out = core.coq_lemmas(os.path.join(ctx.work, "const"), PRE_ACC + "From EsVerif.C11 Require Import Exec.\n",
+                          [(s, p) for _, s, p in lem], shard=8, tag="const")
     for (name, s, _p), (ok, msg) in zip(lem, out):
         ctx.obligation("Gen: " + name, ok, msg)
         if not ok:
